@@ -44,3 +44,28 @@ Definition hatom_simple (a : atom) : pystr :=
   end%list.
 
 Definition no_paths (_ : path) : bool := false.
+
+(* ---- text view ---- *)
+From DD Require Import Path.PathModel Diff.TextView.
+Definition sx_ty (t : ty) : sx :=
+  SA (match t with
+      | TNone => "NoneType" | TBool => "bool" | TInt => "int" | TFloat => "float"
+      | TStr => "str" | TBytes => "bytes" | TList => "list" | TTuple => "tuple"
+      | TDict => "dict" | TSet => "set" | TFrozen => "frozenset"
+      end).
+Definition sx_tentry (t : tentry) : sx :=
+  match t with
+  | TType p a b np vals =>
+      SL [SA "type_changes"; sx_str p; sx_ty a; sx_ty b; sx_opt sx_str np;
+          sx_opt (fun ab => SL [sx_value (fst ab); sx_value (snd ab)]) vals]
+  | TValue p a b np d =>
+      SL [SA "values_changed"; sx_str p; sx_value a; sx_value b; sx_opt sx_str np; sx_opt sx_str d]
+  | TDictAdd p v => SL [SA "dictionary_item_added"; sx_str p; sx_opt sx_value v]
+  | TDictRem p v => SL [SA "dictionary_item_removed"; sx_str p; sx_opt sx_value v]
+  | TIterAdd p v => SL [SA "iterable_item_added"; sx_str p; sx_value v]
+  | TIterRem p v => SL [SA "iterable_item_removed"; sx_str p; sx_value v]
+  | TMoved p np v => SL [SA "iterable_item_moved"; sx_str p; sx_str np; sx_value v]
+  | TSetAdd s => SL [SA "set_item_added"; sx_str s]
+  | TSetRem s => SL [SA "set_item_removed"; sx_str s]
+  end.
+Definition sx_text (l : list tentry) : sx := sx_sorted_list sx_tentry l.
